@@ -808,7 +808,7 @@ func c09Nested(c *Ctx) {
 				f.Do(addr2, "GET", "/characteristics?id="+ids[len(ids)-1], "", nil)
 			}
 		}
-		req := httptest.NewRequest("GET", "/characteristics?id="+strings.Join(ids, ","), nil)
+		req := withLocal(httptest.NewRequest("GET", "/characteristics?id="+strings.Join(ids, ","), nil))
 		req.RemoteAddr = addr
 		msg, pan := safely(func() { f.server.Mux.ServeHTTP(nw, req) })
 		in := map[string]interface{}{"ids": len(ids), "another_request_answered_inside_write_call": nw.at, "other_request": kind, "answer_bytes": nw.buf.Len()}
